@@ -96,8 +96,6 @@ AddBroken(m, n, env) ==
   \cup If(G_SyncAdd => ISRFullReady(m, env), "Add:ReplicasNotInSync")
   \* at most one surplus replica (a move adds before it removes)
   \cup If(Cardinality(ISR(m)) <= rf, "Add:AlreadySurplus")
-  \* (only matters when the factor was raised meanwhile) the result is a strict majority of the factor
-  \cup If(G_Quorum => Quorum(Cardinality(ISR(m)) + 1), "Add:ResultNotAMajority")
 CanAdd(m, n, env) == AddBroken(m, n, env) = {}
 NewID(m) == IF G_FreshID THEN m.maxid + 1 ELSE m.maxid
 AddOf(m, n) == [m EXCEPT !.nodes = Append(@, n),
@@ -109,7 +107,6 @@ FinishBroken(m, n, env) ==
   \* every remaining replica was asked and none still reports the replica as a raft member
   \cup If(G_LeftRaft => ((\A r \in ISR(m) : r \in env.alive) /\ ~InRaft(m, n, env)), "Finish:StillInRaftGroup")
   \cup If(ISR(m) # {}, "Finish:LastReplica")
-  \cup If(G_Quorum => Quorum(Cardinality(ISR(m))), "Finish:RemainingNotAMajority")
 CanFinish(m, n, env) == FinishBroken(m, n, env) = {}
 FinishOf(m, n) == [m EXCEPT !.nodes = RemoveAt(@, n),
                             !.ids = [x \in DOMAIN @ \ {n} |-> @[x]],
@@ -129,6 +126,14 @@ RecordBroken(m) == If(AtMostOneRemoving(m), "C18:MoreThanOneRemoving")
                    \cup If(DistinctNodes(m), "C18:NodesNotDistinct")
                    \cup If(IdsWellFormed(m), "C18:IdsMalformed")
                    \cup (IF IdsWellFormed(m) THEN If(QuorumKept(m), "C18:RemainingNotAMajority") ELSE {})
+\* The majority clause is about what REMAINS after a removal.  When the factor was raised above
+\* twice the replica count by the operator, a record that adds a replica (or finishes a pending
+\* removal) is still short of the majority but does not drop anything: a write is only judged
+\* by the majority clause when it shrinks the in-sync set (with a fixed factor this is the same).
+WriteBroken(old, new) ==
+  (RecordBroken(new) \ {"C18:RemainingNotAMajority"})
+  \cup (IF IdsWellFormed(new) /\ Cardinality(ISR(new)) < Cardinality(ISR(old))
+        THEN If(QuorumKept(new), "C18:RemainingNotAMajority") ELSE {})
 
 \* ----------------------------------------------------------------- behaviour
 VARIABLES metas,     \* partition -> the record in the store
@@ -165,7 +170,7 @@ Write(p, c, new, flags) ==
   IF c.epoch = metas[p].epoch \/ ~G_CAS
   THEN /\ metas' = [metas EXCEPT ![p] = [new EXCEPT !.epoch = metas[p].epoch + 1]]
        /\ used' = [used EXCEPT ![p] = @ \cup {new.ids[x] : x \in DOMAIN new.ids}]
-       /\ bad' = bad \cup flags \cup RecordBroken(new)
+       /\ bad' = bad \cup flags \cup WriteBroken(metas[p], new)
             \cup (IF \E x \in DOMAIN new.ids : (x \notin DOMAIN metas[p].ids \/ metas[p].ids[x] # new.ids[x])
                                                 /\ new.ids[x] \in used[p]
                   THEN {"IdReused"} ELSE {})
